@@ -21,7 +21,7 @@ CHOICES = {"a": [1, 2, 3, 4], "b": [5, 6, 7]}
 
 
 def rows(df):
-    cols = ["a", "b", "x", "y"] + (["c"] if "c" in df.columns else [])
+    cols = ["a", "b", "x", "y"]
     return [tuple(float(df.iloc[i][c]) for c in cols) for i in range(len(df))]
 
 
@@ -47,11 +47,16 @@ def history(engine, length):
                 allowed["b"] = [42]
             hist.append((route, n, "override" if override else "", "generator" if gen else ""))
             np.random.seed(rnd.randint(0, 10 ** 6))
+            cval = 0
             if route == "direct":
                 last = s.sample_combos(n, combos, verbosity=0)
             else:
                 crop = s.Crop(name="c", parent_dir=d, batchsize=rnd.choice([1, 2, 3]))
-                crop.sow_samples(n, combos, verbosity=0)
+                if rnd.random() < 0.5:
+                    cval = 3                 # a constant given with the sowing: used by the function and recorded in the rows
+                    crop.sow_samples(n, combos, constants={"c": cval}, verbosity=0)
+                else:
+                    crop.sow_samples(n, combos, verbosity=0)
                 crop.grow_missing()
                 last = crop.reap()
             full = s.full_df
@@ -62,8 +67,10 @@ def history(engine, length):
                 a, b, x, y = r[:4]
                 if a not in allowed["a"] or b not in allowed["b"]:
                     return [f"row {r} has arguments outside the allowed choices {allowed}"], hist
-                if (x, y) != tuple(float(v) for v in fn(a, b)):
-                    return [f"row {r}: outputs are not the function's values {fn(a, b)}"], hist
+                if (x, y) != tuple(float(v) for v in fn(a, b, cval)):
+                    return [f"row {r}: outputs are not the function's values {fn(a, b, cval)}"], hist
+                if cval and ("c" not in last.columns or set(last["c"]) != {cval}):
+                    return [f"rows sown with constant c={cval} record c={sorted(set(last['c'])) if 'c' in last.columns else None}"], hist
             got = rows(full)
             if got[:len(model)] != model:
                 return [f"earlier rows changed: {got[:len(model)]} != {model}"], hist
